@@ -451,7 +451,18 @@ func (s *Server) attachClient(cl *Client, listener string) error {
 		return packets.ErrBadUsernameOrPassword
 	}
 
-	atomic.AddInt64(&s.Info.ClientsConnected, 1)
+	// The limit was tested above, but other connections may have been admitted since: take the slot
+	// and give it back if that exceeds the limit.
+	if atomic.AddInt64(&s.Info.ClientsConnected, 1) > s.Options.Capabilities.MaximumClients {
+		atomic.AddInt64(&s.Info.ClientsConnected, -1)
+		if cl.Properties.ProtocolVersion < 5 {
+			s.SendConnack(cl, packets.ErrServerUnavailable, false, nil)
+		} else {
+			s.SendConnack(cl, packets.ErrServerBusy, false, nil)
+		}
+
+		return packets.ErrServerBusy
+	}
 	verifAt("attach.counted", cl)
 	defer atomic.AddInt64(&s.Info.ClientsConnected, -1)
 
